@@ -871,6 +871,94 @@ func c15Run(c *core.Ctx) {
 			}
 		}
 	}
+	// complete value spaces of the small fields: every value of every parameter kind whose contents are one or two
+	// octets (5QI, EBI, averaging window) and every 16-bit value x two units of the bit-rate kinds, under each of the three
+	// operation codes, alone and next to another parameter; every value of every one- and two-octet packet-filter
+	// component; every rule identifier, precedence and QFI (a value singled out by the implementation — a default, a
+	// reserved code — is in nobody's boundary alphabet)
+	for op := uint8(1); op <= 3; op++ {
+		for id := byte(1); id <= 7; id++ {
+			if !mine() {
+				continue
+			}
+			if !c.Begin("descs-values", "QoSFlowDescs", map[string]int{"op": int(op), "parameter": int(id)}) {
+				continue
+			}
+			var vals []string
+			switch qParamLen[id] {
+			case 1:
+				for v := 0; v < 256; v++ {
+					vals = append(vals, fmt.Sprintf("%02x", v))
+				}
+			case 2:
+				for v := 0; v < 65536; v++ {
+					vals = append(vals, fmt.Sprintf("%04x", v))
+				}
+			default:
+				for _, u := range []int{0x01, 0x06} {
+					for v := 0; v < 65536; v++ {
+						if !thorough && v%7 != 0 && v > 300 && v < 65200 {
+							continue
+						}
+						vals = append(vals, fmt.Sprintf("%02x%04x", u, v))
+					}
+				}
+				for u := 0; u < 256; u++ {
+					vals = append(vals, fmt.Sprintf("%02x07d0", u))
+				}
+			}
+			for vi, v := range vals {
+				in := c15Descs{Descs: []qDesc{{QFI: 5, Op: op, Params: []qParam{{id, v}}}}}
+				c15DescsExec(c, in)
+				n++
+				if vi%16 == 0 || qParamLen[id] < 3 {
+					in2 := c15Descs{Descs: []qDesc{{QFI: 5, Op: op, Params: []qParam{{1, "09"}, {id, v}, {7, "05"}}}}}
+					c15DescsExec(c, in2)
+					n++
+				}
+				if vi%4096 == 0 {
+					c.Tick()
+				}
+			}
+		}
+	}
+	for _, t := range qCompTypes {
+		if qCompLen[t] == 0 || qCompLen[t] > 2 {
+			continue
+		}
+		if !mine() {
+			continue
+		}
+		if !c.Begin("rules-values", "QoSRules", map[string]int{"component": int(t)}) {
+			continue
+		}
+		top := 256
+		if qCompLen[t] == 2 {
+			top = 65536
+		}
+		for v := 0; v < top; v++ {
+			val := fmt.Sprintf("%02x", v)
+			if qCompLen[t] == 2 {
+				val = fmt.Sprintf("%04x", v)
+			}
+			rules(qRule{ID: 9, Op: 1, Filters: []qFilter{{ID: 3, Dir: 1, Comps: []qComp{{Type: t, Value: val}}}}, Precedence: 77, QFI: 21})
+			if v%4096 == 0 {
+				c.Tick()
+			}
+		}
+	}
+	if mine() {
+		for v := 0; v < 256; v++ {
+			rules(qRule{ID: uint8(v), Op: 1, Filters: []qFilter{simple}, Precedence: 77, QFI: 21})
+			rules(qRule{ID: 9, Op: 1, Filters: []qFilter{simple}, Precedence: uint8(v), QFI: 21})
+			if v < 64 {
+				for op := uint8(1); op <= 6; op++ {
+					rules(qRule{ID: 9, Op: op, Filters: []qFilter{simple}, Precedence: 77, QFI: uint8(v)})
+				}
+				descs(qDesc{QFI: uint8(v), Op: 1, Params: []qParam{{1, "09"}}})
+			}
+		}
+	}
 	// totality: every byte string of length <= 4 (5 thorough) over the branch-constant alphabet, all three parsers
 	alpha := []byte{0x00, 0x01, 0x02, 0x03, 0x05, 0x06, 0x07, 0x08, 0x20, 0x41, 0x60, 0x81, 0xFF, 0x10, 0x11, 0x30, 0x40, 0x50, 0x51, 0x70, 0x80, 0x82, 0x83, 0x84, 0x85, 0x86, 0x87, 0x21, 0x23, 0xA0, 0xC3, 0x09}
 	maxL := 4
@@ -996,7 +1084,7 @@ func init() {
 			if tier == "thorough" {
 				l = "5"
 			}
-			return "totality: every byte string of length <= " + l + " over a 32-value branch-constant alphabet (component types, parameter ids, small lengths, boundary octets) into QoSRules.UnmarshalBinary, QoSFlowDescs.UnmarshalBinary and the component-list parser, plus the <=2-mutation neighbourhood (every truncation, every single-octet replacement by all 256 values, deletions, insertions, pairs) of valid encodings containing every component type and parameter kind; round trip: rule lists over operations 1..6 x DQR x segregation x QFI {0,1,63} x precedence {0,255} x 0..15 filters, filters with 0..2 components over all ordered pairs of the 18 component types with value patterns, rich rules with 1..15 filters of 3/5/9/18 components alone and next to small rules, description lists over operations 1..3 x 0..63 parameters of each kind and all ordered pairs/triples of the 7 kinds. Histories: every ill-formed component kind (IPv6 address, short mask, over-large flow label, nil) at every position of 1..3 components in either filter, an unknown parameter at every position of 1..3 parameters, every truncation and a 13-value replacement at every position of the valid wire forms — alone, in ordered pairs and followed by a successful call — each followed by three probes (serialise and parse well-formed rule and description lists) whose results must not depend on the earlier calls. Value reuse: every truncation / 13-value replacement of the valid wire forms parsed into a list value, then each of three valid wire forms parsed into the same value — verdict and result must equal those of a fresh value. Serialiser hygiene on every round-trip case: the value is unchanged by MarshalBinary, a second MarshalBinary after the caller overwrote the first result gives the same octets, and the result survives serialising another value. Oracle: no panic; unknown identifiers are errors; serialised bytes equal a reference encoder written from figures 9.11.4.12.x / 9.11.4.13.x; parse(serialise(v)) = v."
+			return "totality: every byte string of length <= " + l + " over a 32-value branch-constant alphabet (component types, parameter ids, small lengths, boundary octets) into QoSRules.UnmarshalBinary, QoSFlowDescs.UnmarshalBinary and the component-list parser, plus the <=2-mutation neighbourhood (every truncation, every single-octet replacement by all 256 values, deletions, insertions, pairs) of valid encodings containing every component type and parameter kind; round trip: rule lists over operations 1..6 x DQR x segregation x QFI {0,1,63} x precedence {0,255} x 0..15 filters, filters with 0..2 components over all ordered pairs of the 18 component types with value patterns, rich rules with 1..15 filters of 3/5/9/18 components alone and next to small rules, description lists over operations 1..3 x 0..63 parameters of each kind and all ordered pairs/triples of the 7 kinds. Complete value spaces: every value of every one- and two-octet parameter kind and every 16-bit value x two units (quick: every seventh in the middle band) of the bit-rate kinds under each operation code, every value of every one- and two-octet packet-filter component, every rule identifier, precedence and QFI. Histories: every ill-formed component kind (IPv6 address, short mask, over-large flow label, nil) at every position of 1..3 components in either filter, an unknown parameter at every position of 1..3 parameters, every truncation and a 13-value replacement at every position of the valid wire forms — alone, in ordered pairs and followed by a successful call — each followed by three probes (serialise and parse well-formed rule and description lists) whose results must not depend on the earlier calls. Value reuse: every truncation / 13-value replacement of the valid wire forms parsed into a list value, then each of three valid wire forms parsed into the same value — verdict and result must equal those of a fresh value. Serialiser hygiene on every round-trip case: the value is unchanged by MarshalBinary, a second MarshalBinary after the caller overwrote the first result gives the same octets, and the result survives serialising another value. Oracle: no panic; unknown identifiers are errors; serialised bytes equal a reference encoder written from figures 9.11.4.12.x / 9.11.4.13.x; parse(serialise(v)) = v."
 		},
 		Assumptions: []string{
 			"flow labels are generated below 2^19 (the serialiser rejects larger values although the field has 20 bits; the round trip presupposes a successful serialisation)",
